@@ -322,6 +322,12 @@ static void ini_case(vf::Ctx& c, bool nonl)
 	int nsets = minimal || c.rng.chance(0.1) ? 0 : c.rng.range(1, 20);
 	bool explicitWrite = c.rng.chance(0.4);
 	std::vector<Bytes> newsecs;
+	// a copy written to another path in mid-history must hold the values as of that moment, and must not stop the object's
+	// own file from being brought up to date later (explicitly or on destruction)
+	std::string otherPath = path + ".copy";
+	std::map<SK, Bytes> otherModel;
+	bool otherWritten = false;
+	unlink(otherPath.c_str());
 	{
 		IniFile ini(S(path));
 		if (!ini.ok()) c.fail("ini.open", "IniFile::ok() is false for an existing readable file");
@@ -359,6 +365,7 @@ static void ini_case(vf::Ctx& c, bool nonl)
 			c.count(viaSet ? "ini.api.set()" : "ini.api.operator[]=");
 			if (v.empty()) c.count("ini.set.empty-value");
 			if (c.rng.chance(0.05)) { c.op("write()"); ini.write(); c.count("ini.write.explicit-between-sets"); }
+			if (c.rng.chance(0.08)) { c.op("write(other path)"); ini.write(S(otherPath)); otherModel = ic.model; otherWritten = true; c.count("ini.write.to-another-path"); }
 			if (c.rng.chance(0.1)) { const IniFile& ci = ini; (void)ci.has(S(name)); (void)ci(S(name), "dflt"); }
 		}
 		if (explicitWrite) { c.op("write()"); ini.write(); c.count("ini.write.explicit"); }
@@ -387,6 +394,17 @@ static void ini_case(vf::Ctx& c, bool nonl)
 				                    vf::vis(it->second, 200).c_str(), vf::vis(raw, 1200).c_str()));
 			}
 		}
+	}
+	if (otherWritten) {
+		IniFile copy(S(otherPath), false);
+		const IniFile& cc = copy;
+		if (!cc.ok()) c.fail("ini.copy.open", "the file written with write(other path) cannot be opened");
+		for (std::map<SK, Bytes>::iterator it = otherModel.begin(); it != otherModel.end(); ++it) {
+			Bytes name = api_name(it->first);
+			Bytes got = bytes_of(cc[S(name)]);
+			if (got != it->second) { c.fail("ini.copy.value", vf::fmt("copy[\"%s\"] = '%s', expected '%s'", vf::vis(name).c_str(), vf::vis(got, 200).c_str(), vf::vis(it->second, 200).c_str())); break; }
+		}
+		unlink(otherPath.c_str());
 	}
 	// 2. untouched comment lines and untouched entries keep their relative order in the raw text
 	std::vector<Tok> before = tokens_of(ic.text), after = tokens_of(raw);
